@@ -53,7 +53,7 @@ class BezierCurve:
             elif pt_t.size == 3:
                 out.vertices.append(pt_t)
             uvs[it] = t
-        for i in range(n_pts-1):
+        for i in range(len(points)-1):
             out.edges.append((i,i+1))
         return PolyLine(out)
         
